@@ -79,8 +79,8 @@ func (x *Exec) callFn(fn *ssa.Function, args []Value, env []Value, fr *frame) Va
 				return x.callFunction(pm, args, nil)
 			}
 		}
-		if fn.Name() == "init" {
-			return nil
+		if fn.Signature.Recv() == nil && (fn.Name() == "init" || strings.HasPrefix(fn.Name(), "init#")) && fn.Synthetic != "" || (fn.Signature.Recv() == nil && fn.Name() == "init") {
+			return nil // package initialisers of packages that are not interpreted
 		}
 		if !x.eng.allowedPkg(pkg.Pkg.Path()) {
 			if x.inStdInit > 0 {
@@ -189,8 +189,69 @@ func (x *Exec) callBuiltin(b *ssa.Builtin, args []Value, fr *frame) Value {
 			x.tpanic("value method called using nil pointer")
 		}
 		return args[0]
+	case "clear":
+		switch a := args[0].(type) {
+		case Slice:
+			for i := 0; i < a.Len; i++ {
+				old := a.A.E[a.Off+i]
+				var z Value
+				switch o := old.(type) {
+				case *Term:
+					switch o.S.K {
+					case KBool:
+						z = ts.tFals
+					case KFP:
+						z = ts.FP(0)
+					default:
+						z = ts.BV(o.S.W, 0)
+					}
+				case Str:
+					z = Str{}
+				case Iface, *Lazy:
+					z = Iface{}
+				case Ptr:
+					z = Ptr{}
+				case Slice:
+					z = Slice{}
+				case *MapObj:
+					z = (*MapObj)(nil)
+				default:
+					x.unsupported("clear of slice with this element type")
+				}
+				x.logElemWrite(a.A, a.Off+i, old, z)
+				a.A.E[a.Off+i] = z
+			}
+			return nil
+		case *MapObj:
+			if a != nil {
+				x.forceMapSize(a)
+				for len(a.Entries) > 0 {
+					x.mapDelete(a, a.Entries[0].K)
+				}
+			}
+			return nil
+		}
 	case "min", "max":
-		x.unsupported("builtin " + b.Name())
+		r := args[0].(*Term)
+		_, signed, _ := intInfo(fr.fn.Signature.Params().At(0).Type())
+		_ = signed
+		for _, o := range args[1:] {
+			t := o.(*Term)
+			var lt *Term
+			if t.S.K == KFP {
+				lt = ts.FCmp(OFLt, t, r)
+			} else {
+				lt = ts.Cmp(OSLt, t, r)
+			}
+			if b.Name() == "max" {
+				lt = ts.Not(lt)
+				if t.S.K != KFP {
+					lt = ts.Cmp(OSLt, r, t)
+				}
+			}
+			r = ts.Ite(lt, t, r)
+		}
+		return r
 	}
 	x.unsupported("builtin " + b.Name() + fmt.Sprintf(" on %T", args[0]))
 	return nil
@@ -288,7 +349,7 @@ func (e *Engine) allowedPkg(path string) bool {
 		return true
 	case "strconv":
 		return true
-	case "strings", "bytes", "encoding/xml", "io/fs":
+	case "strings", "bytes", "encoding/xml", "io/fs", "regexp", "regexp/syntax":
 		return true
 	case "os":
 		// only the FileInfo accessors of os.fileStat run for real; everything else in
